@@ -17,7 +17,7 @@ func init() {
 		Explain: "Decides, for every write of non-constant data into an href or src attribute value (found by the lexer-state dataflow of the sink model, all extensions included): (G) every path to the write passes the true edge of Config.Unsafe or the false edge of html.IsDangerousURL(x); (O) the bytes written are exactly EscapeHTML(x) of that same tested value x (or derived from x only by functions of the non-decoding table), written raw — not through the decoding text writer — so no escape or character reference is resolved after the check; (P) the predicate's constant tables are the four schemes and five data:image exemptions, compared case-insensitively. Does NOT decide that the predicate's list suffices for every browser, leading-whitespace/control-character stripping, or percent-decoding semantics.",
 		Trusted: []string{"util.EscapeHTML does not decode", "non-decoding table: util.EscapeHTML, util.URLEscape(·, false)"},
 		Assumes: []string{"user-supplied renderers out of scope"},
-		Rules:   []func(*World, *Report){ruleURLSinks, ruleDangerousPredicate},
+		Rules:   []func(*World, *Report){ruleURLSinks, ruleDangerousPredicate, ruleOptionValueStored, ruleSanitiserLoops},
 	})
 }
 
